@@ -161,6 +161,67 @@ pub fn c03(seed: u64, thorough: bool, tw: &mut TraceWriter) -> Cov {
             sim.run_until(t);
             (sim.steps - s0) as usize
         };
+        // ... and the formation itself: leave / crash while the cluster is still forming (n <= 4)
+        if n <= 4 {
+            let total = {
+                let mut null = TraceWriter::null();
+                let scfg = SimCfg { n, cfg: cfg.clone(), codec: CodecKind::Hand(Mode::Fixed), handler: HandlerCfg::default(), pol: Policy::None, seed: cseed, lat, late: 0 };
+                let mut r = SmallRng::seed_from_u64(cseed ^ 0x5eed);
+                let mut sim = Sim::new(scfg, 0, "c03", json!({}), &mut null);
+                form(&mut sim, &mut r, cfg.period / 2);
+                let t = sim.now + 2 * cfg.period;
+                sim.run_until(t);
+                sim.steps as usize
+            };
+            let estride = if thorough { 1 } else { 2 };
+            for k in (0..total).step_by(estride) {
+                for leave in [false, true] {
+                    let scfg = SimCfg { n, cfg: cfg.clone(), codec: CodecKind::Hand(Mode::Fixed), handler: HandlerCfg::default(), pol: Policy::None, seed: cseed, lat, late: 0 };
+                    let mut r = SmallRng::seed_from_u64(cseed ^ 0x5eed);
+                    let mut sim = Sim::new(scfg, run, "c03", json!({"fault_at": k, "leave": leave, "early": true}), tw);
+                    run += 1;
+                    // formation interleaved with the step budget: joins happen at their instants
+                    sim.spawn(0, 0);
+                    let mut t = 0;
+                    let mut joined = 1;
+                    let mut fired = false;
+                    let mut steps_left = k;
+                    let victim = n - 1; // the last joiner: its join races with its own departure
+                    loop {
+                        if joined < n {
+                            t += r.random_range(0..=cfg.period / 2);
+                            // process events up to the next join instant, counting steps
+                            while let Some(d) = sim.next_due() {
+                                if d > t { break; }
+                                if steps_left == 0 && !fired && joined > victim { break; }
+                                sim.step();
+                                if steps_left > 0 { steps_left -= 1; }
+                            }
+                            sim.now = sim.now.max(t);
+                            sim.spawn(joined, 0);
+                            let via = r.random_range(0..joined);
+                            sim.join(joined, via);
+                            joined += 1;
+                            continue;
+                        }
+                        // all joined: burn the remaining step budget, then inject the fault
+                        while steps_left > 0 && sim.step() {
+                            steps_left -= 1;
+                        }
+                        if !fired {
+                            if leave { sim.leave(victim); } else { sim.crash(victim); }
+                            fired = true;
+                        }
+                        break;
+                    }
+                    let deadline = sim.now + (2 * n as u64 + 1) * cfg.period + cfg.s2d;
+                    sim.run_until(deadline + cfg.period);
+                    sim.end(json!({}));
+                    cov.runs += 1;
+                    *cov.kinds.entry(if leave { "early_leave".into() } else { "early_crash".into() }).or_insert(0) += 1;
+                }
+            }
+        }
         let stride = if thorough { 1 } else { 3.max(window / 12) };
         let subs = subsets(n, &mut master, if thorough { 14 } else { 5 });
         for sub in &subs {
@@ -199,7 +260,7 @@ pub fn c03(seed: u64, thorough: bool, tw: &mut TraceWriter) -> Cov {
 pub fn c04(seed: u64, thorough: bool, tw: &mut TraceWriter) -> Cov {
     let mut master = SmallRng::seed_from_u64(seed);
     let mut cov = Cov::default();
-    let sizes: &[usize] = if thorough { &[2, 3, 4, 5, 6, 8] } else { &[2, 3, 4] };
+    let sizes: &[usize] = if thorough { &[2, 3, 4, 5, 6, 8] } else { &[2, 3, 4, 5, 6] };
     let mut run = 0u64;
     for &n in sizes {
         // latency regimes: (0) well below rtt/4  (1) round trips between rtt and (period-rtt)/2
@@ -232,7 +293,7 @@ pub fn c04(seed: u64, thorough: bool, tw: &mut TraceWriter) -> Cov {
                         (m0, sim.mid)
                     };
                     let count = (m1 - m0) as usize;
-                    let stride = if thorough { 1 } else { 1.max(count / 25) };
+                    let stride = if thorough { 1 } else { 1.max(count / if n <= 4 { 25 } else { 12 }) };
                     for d in (1..=count).step_by(stride) {
                         let Some(mut sim) = formed(n, &cfg, pol, cseed, lat, run, "c04", json!({"regime": regime, "drop": d}), tw) else { continue };
                         run += 1;
